@@ -9,6 +9,9 @@
 #define VERIF_GPUEMU_CL_SYCL_HPP
 
 #include "../../gpuemu.hpp"
+#ifdef GPUEMU_WORKGROUP
+#include "../../gpuemu/workgroup.hpp"
+#endif
 
 namespace sycl {
   template <int D>
@@ -30,7 +33,19 @@ namespace sycl {
     range<D> get_local_range() const { return local_; }
   };
 
-  namespace access { enum class fence_space { local_space, global_space, global_and_local }; }
+  namespace access {
+    enum class fence_space { local_space, global_space, global_and_local };
+    enum class address_space { global_space, local_space, constant_space, private_space, generic_space };
+  }
+
+  template <int D>
+  class group {
+    static int xyz(int d) { return (D - 1) - d; }
+  public:
+    size_t get_group_id(int d) const    { return gpuemu::cur().group[xyz(d)]; }
+    size_t get_local_range(int d) const { return gpuemu::cur().lsize[xyz(d)]; }
+    size_t get_group_range(int d) const { return gpuemu::cur().ngroups[xyz(d)]; }
+  };
 
   template <int D>
   class nd_item {
@@ -43,7 +58,61 @@ namespace sycl {
     size_t get_global_id(int d) const   { return get_group(d) * get_local_range(d) + get_local_id(d); }
     size_t get_global_range(int d) const { return get_group_range(d) * get_local_range(d); }
     void barrier(access::fence_space = access::fence_space::global_and_local) const { gpuemu::barrier(); }
+    group<D> get_group() const { return group<D>(); }
   };
+
+#ifdef GPUEMU_WORKGROUP
+  // work-group local memory (sycl_ext_oneapi_local_memory): every work-item of a group gets a pointer to
+  // the same object, one object per group and per call (k-th call of each item, see workgroup.hpp);
+  // "for_overwrite": the object is not initialised.
+  template <class T, access::address_space S = access::address_space::local_space>
+  class multi_ptr {
+    T *p;
+  public:
+    explicit multi_ptr(T *p_) : p(p_) {}
+    T& operator * () const { return *p; }
+    T* operator -> () const { return p; }
+    T* get() const { return p; }
+  };
+
+  namespace ext { namespace oneapi {
+    template <class T, class Group>
+    multi_ptr<T, access::address_space::local_space> group_local_memory_for_overwrite(Group) {
+      return multi_ptr<T, access::address_space::local_space>((T*) gpuemu::groupLocalAlloc(sizeof(T)));
+    }
+  } }
+
+  // sycl::atomic_ref (SYCL 2020, 4.15.3) for arithmetic types: the operators OCCA's @atomic lowering can
+  // produce.  Work-items are only interleaved at barriers, so plain read-modify-write is atomic here.
+  enum class memory_order { relaxed, acquire, release, acq_rel, seq_cst };
+  enum class memory_scope { work_item, sub_group, work_group, device, system };
+
+  template <class T, memory_order O, memory_scope Sc,
+            access::address_space A = access::address_space::generic_space>
+  class atomic_ref {
+    T &r;
+  public:
+    explicit atomic_ref(T &r_) : r(r_) {}
+    T load() const { return r; }
+    void store(T v) const { r = v; }
+    T operator = (T v) const { r = v; return v; }
+    operator T () const { return r; }
+    T fetch_add(T v) const { const T o = r; r = (T) (o + v); return o; }
+    T fetch_sub(T v) const { const T o = r; r = (T) (o - v); return o; }
+    T fetch_and(T v) const { const T o = r; r = (T) (o & v); return o; }
+    T fetch_or(T v) const  { const T o = r; r = (T) (o | v); return o; }
+    T fetch_xor(T v) const { const T o = r; r = (T) (o ^ v); return o; }
+    T operator += (T v) const { return (T) (fetch_add(v) + v); }
+    T operator -= (T v) const { return (T) (fetch_sub(v) - v); }
+    T operator &= (T v) const { return (T) (fetch_and(v) & v); }
+    T operator |= (T v) const { return (T) (fetch_or(v) | v); }
+    T operator ^= (T v) const { return (T) (fetch_xor(v) ^ v); }
+    T operator ++ () const { return (T) (fetch_add(1) + 1); }
+    T operator ++ (int) const { return fetch_add(1); }
+    T operator -- () const { return (T) (fetch_sub(1) - 1); }
+    T operator -- (int) const { return fetch_sub(1); }
+  };
+#endif
 
   class handler {
   public:
@@ -72,6 +141,8 @@ namespace sycl {
 
 // Entry for a dpcpp kernel: builds queue + nd_range exactly like occa::dpcpp::kernel::deviceRun and
 // calls the translated function once (callExpr uses `queue_` and `range_`).
+#define SYCL_EXTERNAL
+
 #define GPUEMU_SYCL_ENTRY(entryName, callExpr)                                        \
   extern "C" void entryName(void **args, const size_t outer[3], const size_t inner[3]) { \
     sycl::range<3> global_range_(outer[2] * inner[2], outer[1] * inner[1], outer[0] * inner[0]); \
